@@ -290,7 +290,12 @@ func docReplay(args []string) *Result {
 				break
 			}
 			if o.Res == "ok" && o2.Res == "ok" && string(o.JSON) != string(o2.JSON) {
-				res.mismatch("layout:catalog-bytes", "the catalog changes with the layout (same skeleton, different bytes)", map[string]any{"kind": "doc-layout", "case": cs, "text": rd2.text, "canonical": rd.text})
+				sig, what := "layout:catalog-bytes", "the catalog changes with the layout (same skeleton, different bytes)"
+				if collapseEnumNotes(o.JSON) == collapseEnumNotes(o2.JSON) {
+					// recorded finding: the notes of ENUM values are copied with their raw line breaks and indentation
+					sig, what = "layout:enum-note-raw-text", "the note of an ENUM value keeps the line break and the indentation of the text: the catalog changes with the line-ending convention / the indentation (everything else is equal)"
+				}
+				res.mismatch(sig, what, map[string]any{"kind": "doc-layout", "case": cs, "text": rd2.text, "canonical": rd.text})
 				break
 			}
 		}
@@ -324,4 +329,31 @@ func stripKey(v any, key string) {
 			stripKey(e, key)
 		}
 	}
+}
+
+// collapseEnumNotes renders a catalog with every "note" below userEnums collapsed like an annotation (runs of white space = one blank).
+func collapseEnumNotes(js []byte) string {
+	var v map[string]any
+	if json.Unmarshal(js, &v) != nil {
+		return string(js)
+	}
+	var walk func(x any)
+	walk = func(x any) {
+		switch t := x.(type) {
+		case map[string]any:
+			if n, ok := t["note"].(string); ok {
+				t["note"] = strings.Join(strings.Fields(n), " ")
+			}
+			for _, e := range t {
+				walk(e)
+			}
+		case []any:
+			for _, e := range t {
+				walk(e)
+			}
+		}
+	}
+	walk(v["userEnums"])
+	b, _ := json.Marshal(v)
+	return string(b)
 }
